@@ -673,6 +673,56 @@ func (c *Ctx) mkPtr(srt *Sort, ref, v Term) Term {
 }
 func (c *Ctx) nilPtr(srt *Sort) Term { return Term{S: "nil." + srt.Name, Sort: srt} }
 
+// recBridge: a recursive struct type T is cut at its second occurrence by the opaque sort O_rec_T. The two
+// views of a T value are related by a bijection (recwrap / recunwrap), so pointers can move between a
+// field of sort Ptr_O_rec_T and a variable of sort Ptr_S_T without losing identity.
+func (c *Ctx) recBridge(full, rec *Sort) (wrap, unwrap string) {
+	wrap, unwrap = "recwrap."+sanitize(full.Name), "recunwrap."+sanitize(full.Name)
+	if !c.declared[wrap] {
+		c.declared[wrap] = true
+		c.emit(fmt.Sprintf("(declare-fun %s (%s) %s)", wrap, full.Name, rec.Name))
+		c.emit(fmt.Sprintf("(declare-fun %s (%s) %s)", unwrap, rec.Name, full.Name))
+		c.emit(fmt.Sprintf("(assert (forall ((v %s)) (! (= (%s (%s v)) v) :pattern ((%s v)))))", full.Name, unwrap, wrap, wrap))
+		c.emit(fmt.Sprintf("(assert (forall ((o %s)) (! (= (%s (%s o)) o) :pattern ((%s o)))))", rec.Name, wrap, unwrap, unwrap))
+	}
+	return
+}
+
+// recFull converts a pointer to the cut view of a recursive struct into a pointer to its full view (if declared).
+func (c *Ctx) recFull(t Term) Term {
+	if t.Sort.Kind == KPtr && t.Sort.Elem.Kind == KOpaque && strings.HasPrefix(t.Sort.Elem.Name, "O_rec_") {
+		if full, ok := c.sorts["S_"+strings.TrimPrefix(t.Sort.Elem.Name, "O_rec_")]; ok {
+			if r, ok := c.recPtrConv(t, c.ptrSort(full)); ok {
+				return r
+			}
+		}
+	}
+	return t
+}
+
+// recPtrConv converts a pointer between the full and the cut view of a recursive struct (nil iff t is nil, same reference).
+func (c *Ctx) recPtrConv(t Term, want *Sort) (Term, bool) {
+	if t.Sort.Kind != KPtr || want.Kind != KPtr {
+		return t, false
+	}
+	from, to := t.Sort.Elem, want.Elem
+	isRec := func(o, s *Sort) bool {
+		return o.Kind == KOpaque && s.Kind == KStruct && o.Name == "O_rec_"+strings.TrimPrefix(s.Name, "S_")
+	}
+	var conv string
+	switch {
+	case isRec(to, from):
+		conv, _ = c.recBridge(from, to)
+	case isRec(from, to):
+		_, conv = c.recBridge(to, from)
+	default:
+		return t, false
+	}
+	r := tIte(c.ptrIsNil(t), c.nilPtr(want), c.mkPtr(want, c.ptrRef(t), app(to, conv, c.ptrVal(t))))
+	r.Go = t.Go
+	return r, true
+}
+
 // updField rebuilds a datatype value with one field replaced.
 func (c *Ctx) updField(v Term, fname string, nv Term) Term {
 	args := make([]Term, len(v.Sort.Fields))
